@@ -22,7 +22,8 @@ try:
     cmd = meta["demo_cmd"]
     m = re.search(r"-run\s+(\S+)", cmd)
     run = m.group(1).strip("'\"") if m else "."
-    democmd = ["go", "test", "-count=1", "-vet=off", "-run", run, "./" + pkg + "/"]
+    mt = re.search(r"-tags[ =](\S+)", cmd)
+    democmd = ["go", "test", "-count=1", "-vet=off"] + (["-tags", mt.group(1)] if mt else []) + ["-run", run, "./" + pkg + "/"]
     rc0, out0 = sh(democmd, cwd=wt)
     res["demo_without_patch"] = "pass" if rc0 == 0 else "FAIL"
     rc, out = sh(["git", "-C", wt, "apply", os.path.join(d, "patch.diff")])
